@@ -296,6 +296,24 @@ Definition advance (s : st) (d : N) : st :=
   mkSt (now s + d) (closed s) (auth s) (unusable s) (nExpire s) (nPresence s) (nPing s) (nPong s) (armed s)
        (lastPing s) (ponged s) (lastSeen s) (exp s) (csr s) (subs s) (seq s).
 
+(* A connect whose OnConnect handler takes [d] seconds.  connectCmd has authenticated the
+   connection (status still connecting), the on-connect timers are armed only when the handler
+   has returned: in between the stale timer is still the armed one and fires when it is due
+   (closeStale looks at the authenticated flag, so it spares the connection). *)
+Definition stale_due (s : st) : bool :=
+  match armed s with Some (OpStale, due) => due <=? now s | _ => false end.
+
+Definition connect_slow (g : cfg) (s : st) (e : N) (c : bool) (fpres fping d : N) : st * list out :=
+  if closed s || auth s then (advance s d, []) else
+  let s1 := mkSt (now s) false true (unusable s) (nExpire s) (nPresence s) (nPing s) (nPong s) (armed s)
+                 (lastPing s) (ponged s) (lastSeen s) e c (subs s) (seq s) in
+  let s2 := advance s1 d in
+  let '(s3, o3) := if stale_due s2 then run_op g (upd_armed s2 None) OpStale else (s2, []) in
+  if closed s3 then (s3, o3) else
+  let ne := if 0 <? e then now s3 + (e - now s3) + (if c then g_exp_delay g else 0) else nExpire s3 in
+  let np := if 0 <? g_ping g then now s3 + fping else nPing s3 in
+  (schedule (set_times s3 ne (now s3 + fpres) np (nPong s3)), o3).
+
 Inductive label :=
 | LAdvance (d : N)
 | LFire
@@ -305,7 +323,8 @@ Inductive label :=
 | LRefreshCmd (e : N)
 | LSrvRefresh (expired : bool) (e : N)
 | LSubRefreshCmd (n e : N)
-| LStream (n : N) (bad : bool).
+| LStream (n : N) (bad : bool)
+| LConnectSlow (e : N) (c : bool) (fpres fping d : N).
 
 Section Step.
   Variable srv : cfg -> st -> bool -> N -> st * list out.
@@ -322,6 +341,7 @@ Section Step.
     | LRefreshCmd e => Some (if auth s then refresh_cmd g s e else close s 3501)
     | LSubRefreshCmd n e => Some (if auth s then sub_refresh_cmd s n e else close s 3501)
     | LStream n bad => Some (set_stream s n bad, [])
+    | LConnectSlow e c fp fi d => Some (connect_slow g s e c fp fi d)
     end.
 
   Fixpoint exec_gen (g : cfg) (s : st) (ls : list label) : option (st * list (list out)) :=
